@@ -10,7 +10,7 @@ From GI Require Import Lib.Bytes Gen.TxtarWriteConsts Txtar.Txtar
   TxtarWrite.Symlink TxtarWrite.SymlinkFacts TxtarWrite.SymlinkPlain
   TxtarWrite.Fd TxtarWrite.FdFacts TxtarWrite.Cli TxtarWrite.CliFacts.
 From GI Require Import Lib.GoSem Lib.GoSemWorld TxtarWrite.SrcLib TxtarWrite.SrcWorld Gen.TxtarWriteWorldSrc
-  TxtarWrite.SrcWorldFacts TxtarWrite.SrcWalk TxtarWrite.SrcWalkFacts Gen.TxtarWriteSrc TxtarWrite.SrcFacts.
+  TxtarWrite.SrcWorldFacts TxtarWrite.SrcWorldRel TxtarWrite.SrcWalk TxtarWrite.SrcWalkFacts Gen.TxtarWriteSrc TxtarWrite.SrcFacts.
 Import ListNotations.
 
 (* A cleaned name that the guard of Write lets through (not absolute, not "..", no
@@ -405,6 +405,15 @@ Theorem C15_source_write_contained : forall cwd fs dir a fs' e,
     (within (resolve cwd dir) p \/ (get fs' p = Some Dir /\ within p (resolve cwd dir))).
 Proof. exact src_Write_contained. Qed.
 Print Assumptions C15_source_write_contained.
+
+(* containment for every directory string, relative ones included (txtar-x's default "."), *)
+Theorem C15_source_write_contained_any_dir : forall cwd fs dir a fs' e,
+  Forall real cwd -> dir_exists fs cwd -> tw_Write (model_fs cwd) fs (Some a) dir = Ok (fs', e) ->
+  forall p, get fs' p <> get fs p ->
+    get fs p = None /\
+    (within (resolve cwd dir) p \/ (get fs' p = Some Dir /\ within p (resolve cwd dir))).
+Proof. exact src_Write_contained_any_dir. Qed.
+Print Assumptions C15_source_write_contained_any_dir.
 
 (* never overwrites, *)
 Theorem C15_source_write_never_overwrites : forall cwd fs dir a fs' e,
